@@ -52,7 +52,7 @@ def gen_link(rng, claim_only=False):
 
 def gen_case(rng, tier, i):
     k = rng.random()
-    if k < 0.55:
+    if k < 0.45:
         a = gen_link(rng)
         r = rng.random()
         if r < 0.3:
@@ -66,7 +66,7 @@ def gen_case(rng, tier, i):
         else:
             b = gen_link(rng)
         return {"kind": "alg", "a": a, "b": b}
-    elif k < 0.8:
+    elif k < 0.65:
         a = gen_link(rng, claim_only=True)
         d = list(a)
         j = rng.randrange(5)
@@ -75,10 +75,102 @@ def gen_case(rng, tier, i):
             if d[j] != a[j]:
                 break
         return {"kind": "graph", "a": a, "d": d, "vlevel": rng.choice([0, 1, 2, 3]), "segs_first": rng.random() < 0.7}
-    else:
+    elif k < 0.8:
         a = gen_link(rng, claim_only=True)
         return {"kind": "path", "a": a, "stored_compl": rng.random() < 0.5, "rev": rng.random() < 0.5,
                 "star": rng.random() < 0.4, "perm": rng.randrange(24)}
+    else:
+        return gen_multi(rng)
+
+
+def gen_spec_cigar(rng):
+    for _ in range(50):
+        c = gen_cigar(rng, claim_only=True)
+        if c != "*":
+            return c
+    return "1M"
+
+
+def gen_multi(rng):
+    """A whole GFA1 document: 1-3 pairs of segment ends, each joined by 1-3 parallel links which differ only in their
+    (specified) overlap, every link written in either form, sometimes also its other form as a further L line;
+    paths over 1-3 of the links in either direction; every arrival order."""
+    names = rng.sample(NAMES, rng.choice([2, 3, 3, 4]))
+    groups, pairs_seen = [], set()
+    for _ in range(rng.choice([1, 1, 2, 2, 3])):
+        for _ in range(20):
+            f = rng.choice(names)
+            t = rng.choice(names) if rng.random() > 0.25 else f
+            pair = [f, rng.choice("+-"), t, rng.choice("+-")]
+            if pairkey(pair) not in pairs_seen:
+                break
+        else:
+            continue
+        pairs_seen.add(pairkey(pair))
+        size = rng.choice([1, 2, 2, 2, 3])
+        edges = []
+        if size == 1:
+            edges.append(pair + [gen_cigar(rng, claim_only=True)])
+        else:
+            for _ in range(40):
+                if len(edges) == size:
+                    break
+                e = pair + [gen_spec_cigar(rng)]
+                if rng.random() < 0.3 and edges:
+                    # a near miss: the overlap of another link of the group, complemented / reversed / one length changed
+                    o = ops_of(rng.choice(edges)[4])
+                    r = rng.random()
+                    if r < 0.4:
+                        e = pair + [cigar_compl_text(cigar_text(o))]
+                    elif r < 0.7:
+                        e = pair + [cigar_text(list(reversed(o)))]
+                    else:
+                        j = rng.randrange(len(o))
+                        o[j] = (o[j][0] + 1, o[j][1])
+                        e = pair + [cigar_text(o)]
+                if all(canon(e) != canon(x) for x in edges):
+                    edges.append(e)
+        groups.append(edges)
+    edges = [e for g in groups for e in g]
+    single = {canon(g[0]) for g in groups if len(g) == 1}
+    L = []
+    for e in edges:
+        w = compl_text(e) if rng.random() < 0.5 else list(e)
+        L.append(ltext(w))
+        if rng.random() < 0.2:
+            L.append(ltext(compl_text(w)))      # the other form of a stored link: adds nothing, raises nothing
+    P = []
+    for pi in range(rng.choice([0, 1, 1, 2, 3])):
+        e = rng.choice(edges)
+        t = compl_text(e) if rng.random() < 0.5 else list(e)
+        steps = [t]
+        while len(steps) < 3 and rng.random() < 0.45:
+            last = steps[-1]
+            nxt = [x for y in edges for x in (list(y), compl_text(y)) if x[0] == last[2] and x[1] == last[3]]
+            if not nxt:
+                break
+            steps.append(rng.choice(nxt))
+        ov = []
+        for st in steps:
+            ov.append("*" if (st[4] == "*" or rng.random() < (0.3 if canon(st) in single else 0.1)) else st[4])
+        if all(o == "*" for o in ov):
+            ov = ["*"]
+        segs = ["%s%s" % (steps[0][0], steps[0][1])] + ["%s%s" % (st[2], st[3]) for st in steps]
+        P.append("P\tpp%d\t%s\t%s" % (pi, ",".join(segs), ",".join(ov)))
+    used = sorted({n for e in edges for n in (e[0], e[2])})
+    S = ["S\t%s\t*" % n for n in used if rng.random() < 0.9]
+    r = rng.random()
+    if r < 0.25:
+        rng.shuffle(L); rng.shuffle(P); rng.shuffle(S)
+        lines = S + L + P
+    elif r < 0.4:
+        rest = L + P
+        rng.shuffle(rest)
+        lines = S + rest
+    else:
+        lines = S + L + P
+        rng.shuffle(lines)
+    return {"kind": "multi", "a": edges[0], "lines": lines, "vlevel": rng.choice([0, 1, 1, 2, 3])}
 
 
 # ------------------------------------------------------------- independent text-level algebra
@@ -106,6 +198,25 @@ def compl_text(l):
 
 def norm(l):
     return (l[0], l[1], l[2], l[3], "*" if l[4] == "*" else tuple(ops_of(l[4])))
+
+
+def cigar_text(ops):
+    return "".join("%d%s" % (n, k) for n, k in ops) if ops else "*"
+
+
+def key(l):
+    """hashable, totally ordered form of norm()"""
+    return (l[0], l[1], l[2], l[3], "*" if l[4] == "*" else cigar_text(ops_of(l[4])))
+
+
+def canon(l):
+    """one representative of the two forms of a link: two links are one edge iff their canon() are equal"""
+    return min(key(l), key(compl_text(l)))
+
+
+def pairkey(l):
+    """the pair of segment ends joined, whatever the form and the overlap"""
+    return min(tuple(l[:4]), (l[2], inv(l[3]), l[0], inv(l[1])))
 
 
 def claim(l):
@@ -201,6 +312,8 @@ def oracle(case):
                 F.append("different-link-refused: %r then %r: %s %s" % (a, d, r[0], r[1]))
             elif len(g2.dovetails) != n1 + 1:
                 F.append("different-link-merged: %r then %r" % (a, d))
+    elif case["kind"] == "multi":
+        F.extend(oracle_multi(gfapy, case))
     else:  # path
         stored = compl_text(a) if case["stored_compl"] else a
         trav = compl_text(a) if case["rev"] else a
@@ -235,6 +348,197 @@ def oracle(case):
             if [str(x) for x in L.paths] != [str(p)]:
                 F.append("link-paths-backref-wrong: %r" % (list(order),))
     return F
+
+
+# ------------------------------------------------------------- whole documents with parallel links
+def parse_doc(lines):
+    """-> (links in arrival order, paths as (name, [step link in the form traversed, with the step's overlap]))"""
+    links, paths = [], []
+    for l in lines:
+        f = l.split("\t")
+        if f[0] == "L":
+            links.append(f[1:6])
+        elif f[0] == "P":
+            segs = [(x[:-1], x[-1]) for x in f[2].split(",")]
+            ov = f[3].split(",")
+            if ov == ["*"]:
+                ov = ["*"] * (len(segs) - 1)
+            paths.append((f[1], [[segs[i][0], segs[i][1], segs[i + 1][0], segs[i + 1][1], ov[i]] for i in range(len(segs) - 1)]))
+    return links, paths
+
+
+def step_matches(step, edge):
+    if pairkey(step) != pairkey(edge):
+        return False
+    return step[4] == "*" or edge[4] == "*" or canon(step) == canon(edge)
+
+
+def want_flag(stored, trav):
+    """'+' / '-' / None (cannot be told apart): is `trav` (oriented pair and overlap of a path step) the stored form?"""
+    if key(stored)[:4] == key(compl_text(stored))[:4]:
+        # self-complementary oriented pair: only an overlap which is not its own complement tells the two forms apart
+        if trav[4] == "*" or stored[4] == "*" or key(stored) == key(compl_text(stored)):
+            return None
+        return "+" if key(trav) == key(stored) else "-"
+    return "+" if key(trav)[:4] == key(stored)[:4] else "-"
+
+
+def doc_truth(lines):
+    """-> (edges: canon -> form stored (the first to arrive), path steps: [(path name, k, step, canons of the edges
+    which the step may be resolved to)]) or None when the document is outside the generated class (a placeholder
+    overlap sharing its segment ends with another link, a step with no matching edge).  A step with a specified
+    overlap has exactly one edge; a step with `*` may be resolved to any link joining the two segment ends."""
+    links, paths = parse_doc(lines)
+    edges = {}
+    for l in links:
+        edges.setdefault(canon(l), l)
+    per_pair = {}
+    for c, l in edges.items():
+        per_pair.setdefault(pairkey(l), []).append(l)
+    for ls in per_pair.values():
+        if len(ls) > 1 and any(l[4] == "*" for l in ls):
+            return None
+    steps = []
+    for name, sts in paths:
+        for k, st in enumerate(sts):
+            m = [c for c, e in edges.items() if step_matches(st, e)]
+            if not m or (len(m) > 1 and st[4] != "*"):
+                return None
+            steps.append((name, k, st, m))
+    return edges, steps
+
+
+def star_path_first(lines, name, k, st):
+    """when step k of the path `name` was resolved, was a placeholder link with overlap `*` (made for a `*` step of an
+    earlier path, or for an earlier step of the same path) standing for the links between the two segment ends of the
+    step `st`, none of which had arrived yet?"""
+    star = False
+    for l in lines:
+        f = l.split("\t")
+        if f[0] == "L" and pairkey(f[1:6]) == pairkey(st):
+            return False
+        if f[0] == "P":
+            for j, x in enumerate(parse_doc([l])[1][0][1]):
+                if f[1] == name and j == k:
+                    return star
+                if x[4] == "*" and pairkey(x) == pairkey(st):
+                    star = True
+    return False
+
+
+def oracle_multi(gfapy, case):
+    lines = case["lines"]
+    truth = doc_truth(lines)
+    if truth is None:
+        return []
+    edges, steps = truth
+    F = []
+    g = gfapy.Gfa(vlevel=case["vlevel"], version="gfa1")
+    for l in lines:
+        r = lib.outcome(g.add_line, l)
+        if r[0] != "ok":
+            return ["multi-add-raises: %r: adding %r: %s %s" % (lines, l, r[0], r[1])]
+
+    def fields(L):
+        return str(L).split("\t")[1:6]
+
+    def stored_objects():
+        real = [L for L in g.dovetails if not L.virtual]
+        return real, {canon(fields(L)): L for L in real}
+
+    real, by_canon = stored_objects()
+    virt = [L for L in g.dovetails if L.virtual]
+    got = sorted(key(fields(L)) for L in real)
+    exp = sorted(key(l) for l in edges.values())
+    if got != exp:
+        F.append("multi-links-wrong: %r stores the links %r, expected %r" % (lines, got, exp))
+        return F
+    if virt:
+        F.append("multi-link-left-virtual: %r leaves the placeholder links %r" % (lines, [str(v) for v in virt]))
+
+    def check_step(tag, p, k, st, cs):
+        if len(p.links) <= k:
+            F.append("multi-%spath-links-missing: %r: path %s has %d links" % (tag, lines, p.name, len(p.links)))
+            return
+        ol = p.links[k]
+        sfx = "-star-path-first" if (not tag and st[4] != "*" and star_path_first(lines, p.name, k, st)) else ""
+        hit = [c for c in cs if ol.line is by_canon[c]]
+        if not hit:
+            F.append("multi-%spath-does-not-reference-stored-link%s: %r: step %d (%s) of path %s is resolved to %r, stored: %r"
+                     % (tag, sfx, lines, k, " ".join(st), p.name, str(ol.line), [str(by_canon[c]) for c in cs]))
+            return
+        w = want_flag(edges[hit[0]], st)
+        if w is not None and ol.orient != w:
+            F.append("multi-%spath-flag-wrong%s: %r: step %d (%s) of path %s over %r has flag %s, expected %s"
+                     % (tag, sfx, lines, k, " ".join(st), p.name, str(ol.line), ol.orient, w))
+
+    for name, k, st, cs in steps:
+        p = g.line(name)
+        if p is None:
+            F.append("multi-path-lost: %r: path %s" % (lines, name))
+            continue
+        check_step("", p, k, st, cs)
+    # the links list the paths which are resolved to them
+    for L in g.dovetails:
+        users = sorted({p.name for p in g.paths if any(ol.line is L for ol in p.links)})
+        if sorted({x.name for x in L.paths}) != users:
+            F.append("multi-link-paths-backref-wrong: %r: link %r lists the paths %r, the paths resolved to it are %r"
+                     % (lines, str(L), sorted(x.name for x in L.paths), users))
+    if F:
+        return F
+    # ---- adding the other form of each stored link adds nothing, raises nothing
+    for c in sorted(edges):
+        t0 = str(g); n0 = len(g.dovetails)
+        other = compl_text(edges[c])
+        r = lib.outcome(g.add_line, ltext(other))
+        if r[0] != "ok":
+            F.append("multi-add-complement-raises: %r then %r (the complement of the stored %r): %s %s"
+                     % (lines, ltext(other), ltext(edges[c]), r[0], r[1]))
+        elif str(g) != t0 or len(g.dovetails) != n0:
+            F.append("multi-add-complement-adds: %r then %r (the complement of the stored %r) changed the Gfa"
+                     % (lines, ltext(other), ltext(edges[c])))
+    if F:
+        return F
+    # ---- a path added now over each stored link, in either direction, finds it
+    real, by_canon = stored_objects()
+    n0 = len(g.dovetails)
+    for i, c in enumerate(sorted(edges)):
+        for j, st in enumerate((edges[c], compl_text(edges[c]))):
+            name = "zz%d_%d" % (i, j)
+            r = lib.outcome(g.add_line, "P\t%s\t%s%s,%s%s\t%s" % (name, st[0], st[1], st[2], st[3], st[4]))
+            if r[0] != "ok":
+                F.append("multi-late-path-raises: %r then a path over %s: %s %s" % (lines, " ".join(st), r[0], r[1]))
+                continue
+            check_step("late-", g.line(name), 0, st, [c])
+    if len(g.dovetails) != n0:
+        F.append("multi-late-path-adds-links: %r: %d links became %d" % (lines, n0, len(g.dovetails)))
+    return F
+
+
+def shrink(case, failure):
+    if case.get("kind") != "multi":
+        return case
+    sig = signature(case, failure)
+    cur = dict(case)
+
+    def still(c):
+        try:
+            return any(signature(c, f) == sig for f in oracle(c))
+        except Exception:  # noqa
+            return False
+    changed = True
+    while changed:
+        changed = False
+        for i in range(len(cur["lines"]) - 1, -1, -1):
+            c = dict(cur, lines=cur["lines"][:i] + cur["lines"][i + 1:])
+            if c["lines"] and still(c):
+                cur = c
+                changed = True
+    for v in (1, 0):
+        c = dict(cur, vlevel=v)
+        if v != cur["vlevel"] and still(c):
+            cur = c
+    return cur
 
 
 # ------------------------------------------------------------- correspondence (model vs implementation)
